@@ -1,0 +1,232 @@
+//go:build verif
+
+// Test-only seam for the external runtime-monitoring harness (/verif, checks
+// C17 and C18). Inert without the `verif` build tag. Wrappers only: a
+// constructor which injects a clock and an event-loop wrapper through the
+// existing unexported withClock / withEventLoop options, and read-only state
+// probes which are executed on the event loop.
+package scheduler
+
+import (
+	"reflect"
+	"time"
+
+	"github.com/andres-erbsen/clock"
+	"github.com/uber-go/tally"
+
+	"github.com/uber/kraken/core"
+	"github.com/uber/kraken/lib/torrent/networkevent"
+	"github.com/uber/kraken/lib/torrent/scheduler/announcequeue"
+	"github.com/uber/kraken/lib/torrent/storage"
+	"github.com/uber/kraken/tracker/announceclient"
+)
+
+// VerifC17EventInfo describes one event travelling through the event loop.
+type VerifC17EventInfo struct {
+	// Name is the Go type name of the event, e.g. "dispatcherCompleteEvent".
+	Name string
+	// InfoHash / Digest identify the torrent the event is about, when the event
+	// carries one (zero values otherwise).
+	InfoHash core.InfoHash
+	Digest   core.Digest
+	// Ref is an opaque identity of the dispatcher a dispatcherCompleteEvent
+	// comes from (comparable with VerifC17TorrentState.Ref); nil otherwise.
+	Ref interface{}
+}
+
+// VerifC17TorrentState is a read-only snapshot of one torrent control.
+type VerifC17TorrentState struct {
+	Present   bool
+	Complete  bool
+	Waiters   int
+	CreatedAt time.Time
+	LastRead  time.Time
+	LastWrite time.Time
+	// Ref is an opaque identity of the control's dispatcher.
+	Ref interface{}
+}
+
+// VerifC17View gives read-only access to the protected scheduler state. It is
+// only valid on the event loop goroutine (inside BeforeApply / AfterApply).
+type VerifC17View struct{ s *state }
+
+// Torrent returns the snapshot of the torrent control for h.
+func (v VerifC17View) Torrent(h core.InfoHash) VerifC17TorrentState {
+	ctrl, ok := v.s.torrentControls[h]
+	if !ok {
+		return VerifC17TorrentState{}
+	}
+	return VerifC17TorrentState{
+		Present:   true,
+		Complete:  ctrl.dispatcher.Complete(),
+		Waiters:   len(ctrl.errors),
+		CreatedAt: ctrl.dispatcher.CreatedAt(),
+		LastRead:  ctrl.dispatcher.LastReadTime(),
+		LastWrite: ctrl.dispatcher.LastWriteTime(),
+		Ref:       ctrl.dispatcher,
+	}
+}
+
+// NumTorrents returns the number of torrent controls.
+func (v VerifC17View) NumTorrents() int { return len(v.s.torrentControls) }
+
+// HasConn reports whether an active conn to peerID for h exists.
+func (v VerifC17View) HasConn(peerID core.PeerID, h core.InfoHash) bool {
+	for _, c := range v.s.conns.ActiveConns() {
+		if c.PeerID() == peerID && c.InfoHash() == h {
+			return true
+		}
+	}
+	return false
+}
+
+// NumConns returns the number of active conns for h.
+func (v VerifC17View) NumConns(h core.InfoHash) int {
+	n := 0
+	for _, c := range v.s.conns.ActiveConns() {
+		if c.InfoHash() == h {
+			n++
+		}
+	}
+	return n
+}
+
+// VerifC17Hooks are the callbacks of the event-loop wrapper. Any may be nil.
+type VerifC17Hooks struct {
+	// BeforeSend runs on the sender's goroutine before the event is handed to
+	// the loop. It may block (that only delays the send, as goroutine
+	// scheduling could).
+	BeforeSend func(VerifC17EventInfo)
+	// AfterSend runs on the sender's goroutine once the send returned; ok is
+	// false when the loop was already stopped.
+	AfterSend func(info VerifC17EventInfo, ok bool)
+	// BeforeApply / AfterApply run on the event loop goroutine around apply.
+	BeforeApply func(VerifC17EventInfo, VerifC17View)
+	AfterApply  func(VerifC17EventInfo, VerifC17View)
+}
+
+func verifC17Info(e event) VerifC17EventInfo {
+	info := VerifC17EventInfo{Name: reflect.TypeOf(e).Name()}
+	switch v := e.(type) {
+	case newTorrentEvent:
+		info.InfoHash, info.Digest = v.torrent.InfoHash(), v.torrent.Digest()
+	case dispatcherCompleteEvent:
+		info.InfoHash, info.Digest = v.dispatcher.InfoHash(), v.dispatcher.Digest()
+		info.Ref = v.dispatcher
+	case removeTorrentEvent:
+		info.Digest = v.digest
+	case announceResultEvent:
+		info.InfoHash = v.infoHash
+	case announceErrEvent:
+		info.InfoHash = v.infoHash
+	case connClosedEvent:
+		info.InfoHash = v.c.InfoHash()
+	case incomingConnEvent:
+		info.InfoHash = v.c.InfoHash()
+	case outgoingConnEvent:
+		info.InfoHash = v.c.InfoHash()
+	}
+	return info
+}
+
+type verifC17Event struct {
+	e     event
+	info  VerifC17EventInfo
+	hooks *VerifC17Hooks
+}
+
+func (w verifC17Event) apply(s *state) {
+	if w.hooks.BeforeApply != nil {
+		w.hooks.BeforeApply(w.info, VerifC17View{s})
+	}
+	w.e.apply(s)
+	if w.hooks.AfterApply != nil {
+		w.hooks.AfterApply(w.info, VerifC17View{s})
+	}
+}
+
+type verifC17Loop struct {
+	inner eventLoop
+	hooks *VerifC17Hooks
+}
+
+func (l *verifC17Loop) send(e event) bool {
+	info := verifC17Info(e)
+	if l.hooks.BeforeSend != nil {
+		l.hooks.BeforeSend(info)
+	}
+	ok := l.inner.send(verifC17Event{e, info, l.hooks})
+	if l.hooks.AfterSend != nil {
+		l.hooks.AfterSend(info, ok)
+	}
+	return ok
+}
+
+func (l *verifC17Loop) sendTimeout(e event, timeout time.Duration) error {
+	info := verifC17Info(e)
+	if l.hooks.BeforeSend != nil {
+		l.hooks.BeforeSend(info)
+	}
+	err := l.inner.sendTimeout(verifC17Event{e, info, l.hooks}, timeout)
+	if l.hooks.AfterSend != nil {
+		l.hooks.AfterSend(info, err == nil)
+	}
+	return err
+}
+
+func (l *verifC17Loop) run(s *state) { l.inner.run(s) }
+func (l *verifC17Loop) stop()        { l.inner.stop() }
+
+// VerifC17Scheduler is a started scheduler built by VerifC17New. Download,
+// RemoveTorrent, Probe, BlacklistSnapshot and Stop are the real methods.
+type VerifC17Scheduler struct {
+	*scheduler
+}
+
+// VerifC17New creates and starts a scheduler on the given clock and torrent
+// archive whose event loop is wrapped with hooks (hooks may be nil).
+func VerifC17New(
+	config Config,
+	ta storage.TorrentArchive,
+	stats tally.Scope,
+	pctx core.PeerContext,
+	announceClient announceclient.Client,
+	netevents networkevent.Producer,
+	clk clock.Clock,
+	hooks *VerifC17Hooks) (*VerifC17Scheduler, error) {
+
+	if hooks == nil {
+		hooks = &VerifC17Hooks{}
+	}
+	s, err := newScheduler(
+		config, ta, stats, pctx, announceClient, netevents,
+		withClock(clk), withEventLoop(&verifC17Loop{newEventLoop(), hooks}))
+	if err != nil {
+		return nil, err
+	}
+	if err := s.start(announcequeue.New()); err != nil {
+		return nil, err
+	}
+	return &VerifC17Scheduler{s}, nil
+}
+
+type verifC17ProbeEvent struct {
+	fn   func(VerifC17View)
+	done chan struct{}
+}
+
+func (e verifC17ProbeEvent) apply(s *state) {
+	e.fn(VerifC17View{s})
+	close(e.done)
+}
+
+// VerifC17Inspect runs fn on the event loop with a read-only view of the
+// state. Returns false if the scheduler has been stopped.
+func (s *VerifC17Scheduler) VerifC17Inspect(fn func(VerifC17View)) bool {
+	e := verifC17ProbeEvent{fn, make(chan struct{})}
+	if !s.eventLoop.send(e) {
+		return false
+	}
+	<-e.done
+	return true
+}
